@@ -10,6 +10,7 @@ CONSTANTS
   FixNonRequest = TRUE
   FixLongWs = FALSE
   FarChoices = {FALSE}
+  FixNullRequired = FALSE
   HasValidator = TRUE
   NilPointerSkipsValidation = TRUE
 INIT Init
